@@ -28,6 +28,7 @@ for id in "${ids[@]}"; do
     C08f) prof=c06; extra=" (C08 leg over the scan workload)";;
     C18i|C18k) prof=c18wc; extra=" (whole-client C18 leg)";;
     C08j) prof=c17; extra=" (C08 leg over the stale-meta scenarios)";;
+    C08l) prof=c04; n=4000; extra=" (C08 monitor leg over the fault workload)";;
     C04l) prof=c04admin; extra=" (administrative calls)";;
     C08g) prof=c20; extra=" (C08 leg over the shared-connection workload)";;
   esac
